@@ -350,3 +350,33 @@ func streamLeaves(r *Rand, n int, o *Out) {
 		}
 	}
 }
+
+// leafObs: the stored fields of a url value (from the hook dump) as a case for the driver, the getters/accessors of the
+// real object as the expected observation. Ties the model's serializer and accessors to the Go ones on exactly the states
+// the Go code reached, independently of how they were reached.
+var lobsSeen = map[string]bool{}
+
+func leafObs(o *Out, u *url.Url, c *Cfg) {
+	d := url.VerifDump(u)
+	opt := func(p *string) string {
+		if p == nil {
+			return "-"
+		}
+		return xs(*p)
+	}
+	segs := "-"
+	if len(d.Segs) > 0 {
+		p := make([]string, len(d.Segs))
+		for i, s := range d.Segs {
+			p[i] = hx(s)
+		}
+		segs = strings.Join(p, ",")
+	}
+	arg := strings.Join([]string{c.Tok, xs(d.Scheme), xs(d.Username), xs(d.Password), opt(d.Host), opt(d.Port), fmt.Sprint(d.DecodedPort), b01(d.Opaque), segs, opt(d.Query), opt(d.Fragment)}, " ")
+	if lobsSeen[arg] {
+		return
+	}
+	lobsSeen[arg] = true
+	f := strings.Split(obsUrl(u, nil), "|")
+	leafSimple(o, "LOBS", arg, strings.Join(f[:19], "|"))
+}
